@@ -232,12 +232,16 @@ Proof.
     pose proof (ka_hist_peer_app s f Hinv) as H1.
     destruct (max_buffered <? f_len f).
     { eapply ka_hist_same; [|exact H1]. unfold init_fail. same_ka_tac. }
-    set (s2 := match typed_handler cfg (f_typ f) with Some _ => _ | None => _ end).
+    set (s2 := match first_handler cfg (f_typ f) with Some _ => _ | None => _ end).
     assert (Hs2 : ka_hist s2).
-    { subst s2. destruct (typed_handler cfg (f_typ f)) as [k|] eqn:Eth; [|assumption].
+    { subst s2. destruct (first_handler cfg (f_typ f)) as [k|] eqn:Eth; [|assumption].
       (* the same record run_handler would write, with the typed handler's kind *)
       pose proof (ka_hist_dispatch cfg s (set_peer_sent (peer_sent s ++ [f]) s) f h false Hinv eq_refl eq_refl eq_refl) as Hd.
-      unfold run_handler, handler_for in Hd. rewrite Eth in Hd. exact Hd. }
+      assert (Ek : handler_for cfg (f_typ f) = k).
+      { unfold first_handler in Eth. unfold handler_for. destruct (typed_handler cfg (f_typ f)) as [k'|].
+        - injection Eth as <-. reflexivity.
+        - destruct (default_handler cfg); [injection Eth as <-; reflexivity|discriminate]. }
+      unfold run_handler in Hd. rewrite Ek in Hd. exact Hd. }
     eapply ka_hist_same; [|exact Hs2].
     destruct ((f_typ f =? T_ReaderEventNotification) && is_conn_success (f_info f)); unfold init_fail; same_ka_tac.
 Qed.
